@@ -181,6 +181,27 @@ def _act(r, i, e, occ):
             signal.signal(signal.SIGSEGV, signal.SIG_DFL)
             os.kill(os.getpid(), signal.SIGSEGV)
         os._exit(9)
+    if a == 'swap_stdout':
+        # a tidy test: remembers sys.stdout, installs its own stream, and puts back what it
+        # remembered in a later phase (which, under --buffer, is the runner's capture buffer)
+        import io
+        r.emit([r.simpid, 'fault', 'replace_stdout', i, 0])
+        if e.get('step') == 'save':
+            r.extra['saved_stdout'] = sys.stdout
+            sys.stdout = io.StringIO()
+        elif 'saved_stdout' in r.extra:
+            sys.stdout = r.extra.pop('saved_stdout')
+        return
+    if a == 'replace_stdout':
+        # a sloppy test: points sys.stdout (or sys.stderr) at a stream of its own and never
+        # puts the old one back
+        import io
+        r.emit([r.simpid, 'fault', 'replace_stdout', i, 0])
+        if e.get('which', 'stdout') == 'stdout':
+            sys.stdout = io.StringIO()
+        else:
+            sys.stderr = io.StringIO()
+        return
     if a == 'wrap_stdout':
         # a test installs a process-wide wrapper around the std streams and leaves it there
         # (colorama.init(), a logging tee): from now on THAT is the stream everybody expects
@@ -216,6 +237,14 @@ class InstLayer:
 
     def __repr__(self):
         return '<InstLayer %s>' % self.__name__
+
+
+class FalsyInstLayer(InstLayer):
+    """A layer object that is falsy (a registry-like object with __len__ == 0): nothing in
+    the layer contract says a layer must be true."""
+
+    def __len__(self):
+        return 0
 
 
 def _cls_hook(h):
@@ -254,7 +283,7 @@ def populate_layers(g):
                 ns[h] = staticmethod(c_raise)
             obj = type(name, bases or (object,), ns)
         else:
-            obj = InstLayer(name, bases)
+            obj = (FalsyInstLayer if L.get('falsy') else InstLayer)(name, bases)
             obj.__module__ = home
             for h in L['hooks']:
                 setattr(obj, h, _inst_hook(h, name))
